@@ -114,6 +114,12 @@
 //!              finder fns (`-> Option<&mut T>` with body `iter_mut().flatten().find(..)`: position + call-site alias);
 //!              BORROWED_RETURN_OK (a returned `&[u8]` slice of `self` by value); `&mut buf[a..b]` rvalue snapshots; `i32`
 //!              comparisons and `as uW` casts (`RustSem.cast_i32`); `if let Some(x) = &mut place`; `Option::take` on a place
+//!   stage 10   (netcode server, receive side) manifest RANDOM_SOURCES: `generate_random_bytes()` = explicit `rand<k>` parameters
+//!              (`Globals::rand_counts`, `analysis::RandScan`); `Box::new`; `slice.contains`; `Cx::snapshots` (write-back of a
+//!              callee's `Err` state into indexed / map / `Option` places); early `return tail_call(..)`; `Exec.attempt2`;
+//!              `Doc::Typed` (tuple binds whose branches all leave the fn)
+//!   stage 11   (netcode client, token generation) `vec.into_iter()`; or-patterns inside tuple patterns (distributed);
+//!              randomness parameters threaded through callers (`ConnectToken::generate` → `NetcodeClient::new`)
 //!   not supported: `loop`, valued `break`, closures other than the pure `map` / `or_insert_with` ones, generics, traits, signed integers, floats,
 //!              references stored in data, `ref mut`, `&mut` parameters other than `self`, unsigned integers and the
 //!              octets / io cursors.
